@@ -39,6 +39,16 @@ def wide_batch_jobs(rng, n):
                           "--wide", str([300, 140][i % 2]), "--wideevery", "6", "--cc", "4"]) for i in range(max(1, n // 2))]
 
 
+def restart_wide_jobs(rng, n):
+    """Two or three sessions (crash and restart, or clean restart) each of which BEGINS with a batch of more than 60
+    records: the first allocation-journal image written after an open is longer than one sector and may tear, while
+    the other slot still holds the last image of the previous session."""
+    return [("rwide%d" % i, ["--seed", str(rng.randrange(1 << 30)), "--steps", "12", "--fmt", str([3, 3, 2][i % 3]), "--blocks", "300",
+                             "--cpus", "2", "--keys", "70", "--ttl", "1", "--end", "drop", "--flushpct", "12", "--maximages", "150",
+                             "--wide", "66", "--wideevery", "8", "--widefirst", "1", "--sessions", str(2 + i % 2), "--cleanrestart", "1", "--cc", "4"])
+            for i in range(n)]
+
+
 def huge_extent_jobs(rng, n, extra=()):
     """Values of more than 1 MiB: extents longer than the 256 blocks in which retirement markers are written
     (and recovery reads) at a time; crash images between the partial marker writes."""
